@@ -88,8 +88,14 @@ Lemma premature_completion_refuted :
   fst (read 2 [1;2;3;4;5] None bad) = [1;2] /\ fst (read 2 [1;2;3;4;5] None (snd (read 2 [1;2;3;4;5] (Some 1) init))) = [1;2;3;4;5].
 Proof. vm_compute. split; reflexivity. Qed.
 
-(* logged Shuffle: with the seed restored in a finally block an abandoned read leaves the state unchanged *)
-Lemma shuffle_seed_restored st temp partial : snd (shuffle_read true partial st temp) = st.
-Proof. unfold shuffle_read. destruct partial; reflexivity. Qed.
-Lemma shuffle_seed_not_restored_refuted : snd (shuffle_read false true {| seed := 1 |} 3) <> {| seed := 1 |}.
-Proof. cbn. discriminate. Qed.
+(* logged Shuffle with a local seed: whatever reads start, overlap, finish or are dropped, every read shuffles with alt(seed) and the filter keeps its seed *)
+Lemma sruns_local alt s0 evs : seed (sruns false alt s0 evs) = s0 /\ Forall (fun u => u = alt s0) (used (sruns false alt s0 evs)).
+Proof.
+  unfold sruns. set (st0 := {| seed := s0; saved := []; used := [] |}).
+  assert (seed st0 = s0 /\ Forall (fun u => u = alt s0) (used st0)) as H0 by (split; [reflexivity|constructor]).
+  revert H0. generalize st0. clear st0. induction evs as [|e r IH]; intros st [Hs Hu]; [split; assumption|]. cbn [fold_left]. apply IH.
+  destruct e as [|k]; cbn; [|split; assumption]. split; [exact Hs|]. apply Forall_app. split; [exact Hu|]. constructor; [rewrite Hs; reflexivity|constructor].
+Qed.
+(* the code before the fix: a second read that starts while the first is still suspended uses alt(alt(seed)), and the seed stays changed *)
+Lemma sruns_mutating_refuted : let st := sruns true (fun s => s * 3) 1 [SStart; SStart; SEnd 0; SEnd 1] in used st = [3; 9] /\ seed st = 3.
+Proof. vm_compute. split; reflexivity. Qed.
